@@ -433,6 +433,7 @@ func scenPty(out *scenOut, rr *rng, thorough bool) {
 		defer wg.Done()
 		defer func() { <-sem }()
 		ptyStaleSize(out)
+		ptyResizeAfterExec(out)
 	}()
 	reps := 3
 	if thorough {
@@ -685,4 +686,84 @@ func ptyResize(out *scenOut, rr *rng) {
 			out.fail(finding{Property: "C18", Class: "new", What: "rendered line not clipped at all after the size was reported", Input: desc})
 		}
 	}
+}
+
+// ptyResizeAfterExec: the resize listener is one goroutine for the whole life of the program; an
+// Exec releases and restores the terminal around it. A resize DURING the command is reported when
+// the terminal is taken back, and resizes AFTER the command are reported as before it.
+func ptyResizeAfterExec(out *scenOut) {
+	w, h := 80, 24
+	desc := "resize, Exec (a resize while the command runs), resize, Exec, resize"
+	r, err := startPtyChild("default", w, h)
+	if err != nil {
+		return
+	}
+	defer r.cleanup()
+	if !r.waitLog("size ", 5*time.Second) {
+		out.fail(finding{Property: "C18", Class: "new", What: "no WindowSizeMsg at start-up", Input: desc})
+		return
+	}
+	time.Sleep(40 * time.Millisecond)
+	lastIs := func(w, h int) bool {
+		s := r.sizes()
+		return len(s) > 0 && s[len(s)-1] == fmt.Sprintf("%d %d", w, h)
+	}
+	resize := func(nw, nh int, when string) bool {
+		w, h = nw, nh
+		setWinsize(r.pair.master, w, h)
+		if !waitFor(3*time.Second, func() bool { return lastIs(w, h) }) {
+			out.fail(finding{Property: "C18", Class: "new", What: "a resize " + when + " was not reported to Update", Input: desc,
+				Expected: fmt.Sprintf("last size %d %d", w, h), Observed: strings.Join(r.sizes(), ", ")})
+			return false
+		}
+		return true
+	}
+	out.record("resize-after-exec", desc)
+	if !resize(100, 30, "before any Exec") {
+		return
+	}
+	for k := 1; k <= 2; k++ {
+		os.Remove(r.gate)
+		nRunning := len(r.linesWith("exec-running"))
+		r.pair.master.Write([]byte("e"))
+		if !waitFor(3*time.Second, func() bool { return len(r.linesWith("exec-running")) > nRunning }) {
+			return
+		}
+		// a resize while the command owns the terminal
+		w, h = w+3, h+1
+		setWinsize(r.pair.master, w, h)
+		time.Sleep(30 * time.Millisecond)
+		nDone := len(r.linesWith("exec-done"))
+		os.WriteFile(r.gate, []byte("x"), 0o644)
+		if !waitFor(3*time.Second, func() bool { return len(r.linesWith("exec-done")) > nDone }) {
+			return
+		}
+		if !waitFor(3*time.Second, func() bool { return lastIs(w, h) }) {
+			out.fail(finding{Property: "C18", Class: "new", What: "the size the terminal got while an Exec'd command ran was not reported when the terminal was taken back", Input: desc,
+				Expected: fmt.Sprintf("last size %d %d", w, h), Observed: strings.Join(r.sizes(), ", ")})
+			return
+		}
+		time.Sleep(30 * time.Millisecond)
+		if !resize(60+10*k, 20+k, fmt.Sprintf("after Exec number %d", k)) {
+			return
+		}
+		if !resize(120+k, 40, fmt.Sprintf("after Exec number %d (second resize)", k)) {
+			return
+		}
+	}
+	r.pair.master.Write([]byte("q"))
+	select {
+	case <-r.exited:
+	case <-time.After(3 * time.Second):
+	}
+}
+
+func (r *ptyRun) linesWith(sub string) []string {
+	var out []string
+	for _, l := range r.logLines() {
+		if strings.Contains(l, sub) {
+			out = append(out, l)
+		}
+	}
+	return out
 }
